@@ -51,6 +51,16 @@ class StrColor(str, enum.Enum):
     MAUVE = "MAUVE"
 
 
+async def _raising_coro():
+    raise ValueError("backend unavailable")
+
+
+class _FailingAwaitable:
+    def __await__(self):
+        raise KeyError("no such row")
+        yield  # pragma: no cover
+
+
 UNIVERSE = [
     ("None", lambda: None), ("True", lambda: True), ("False", lambda: False),
     ("0", lambda: 0), ("1", lambda: 1), ("-1", lambda: -1), ("2^31-1", lambda: 2 ** 31 - 1), ("2^31", lambda: 2 ** 31),
@@ -84,11 +94,12 @@ UNIVERSE = [
     ("fraction-7/2", lambda: Fraction(7, 2)), ("fraction-3/1", lambda: Fraction(3, 1)),
     ("cancellederror", lambda: asyncio.CancelledError()), ("generatorexit", lambda: GeneratorExit("done")),
     ("keyboardinterrupt", lambda: KeyboardInterrupt()),
+    ("coroutine-raising", _raising_coro), ("awaitable-failing", _FailingAwaitable),
     ("mappingproxy", lambda: types.MappingProxyType({"_typename": "O", "x": 1, "y": "q"})),
 ]
 TE_LABELS = ["te-bare", "te-path", "te-locations", "te-located", "raise-te-located"]
 CORE = ["None", "1", "'abc'", "1.5", "True", "nan", "2^31", "dict-typename-O", "dict-typename-unknown", "exception",
-        "list", "'RED'", "'nullify'", "pyenum-RED", "decimal-almost-1"]
+        "list", "'RED'", "'nullify'", "pyenum-RED", "decimal-almost-1", "coroutine-raising", "awaitable-failing"]
 UDICT = dict(UNIVERSE)
 
 
